@@ -11,9 +11,11 @@ import (
 	"strings"
 	"testing"
 
+	"github.com/sahandsafizadeh/qeep/tensor"
 	"pgregory.net/rapid"
 
 	"qeepverif/evid"
+	"qeepverif/lib"
 	"qeepverif/ref"
 )
 
@@ -169,6 +171,62 @@ func closeTo(got, want, scale float64) bool {
 		evid.RelErr(d / math.Max(s, 1e-1))
 	}
 	return d <= tol
+}
+
+// NFan is the number of consumer topologies of weightedRoot.
+const NFan = 4
+
+// weightedRoot builds the scalar-free root sum_e G[e]*y[e] is back-propagated from, as a tensor
+// of y's shape whose element sum has that value. The effective upstream weighting of y is G in
+// every mode; the modes differ in how many operations consume y:
+//   0  y*G
+//   1  y*(G-H) + y*H            two consumers (H = +1, -1, +1, ... : the second part sums to 0)
+//   2  y*G + (y - y)            three consumers, two of them cancelling exactly
+//   3  (1*y)*(G-H) + y*H        two consumers at different depths
+func weightedRoot(y tensor.Tensor, shape []int, g []float64, fan int) (tensor.Tensor, error) {
+	if fan <= 0 || fan >= NFan {
+		return y.Mul(lib.MustNew(shape, g, false))
+	}
+	if fan == 2 {
+		a, err := y.Mul(lib.MustNew(shape, g, false))
+		if err != nil {
+			return nil, err
+		}
+		d, err := y.Sub(y)
+		if err != nil {
+			return nil, err
+		}
+		return a.Add(d)
+	}
+	h := make([]float64, len(g))
+	gh := make([]float64, len(g))
+	for i := range g {
+		h[i] = 1
+		if i%2 == 1 {
+			h[i] = -1
+		}
+		gh[i] = g[i] - h[i]
+	}
+	first := y
+	if fan == 3 {
+		first = y.Scale(1)
+	}
+	a, err := first.Mul(lib.MustNew(shape, gh, false))
+	if err != nil {
+		return nil, err
+	}
+	b, err := y.Mul(lib.MustNew(shape, h, false))
+	if err != nil {
+		return nil, err
+	}
+	return a.Add(b)
+}
+
+func drawFan(t *rapid.T) int {
+	if rapid.IntRange(0, 3).Draw(t, "fanplain") > 0 {
+		return 0
+	}
+	return rapid.IntRange(1, NFan-1).Draw(t, "fan")
 }
 
 func shapeStr(s []int) string { return fmt.Sprint(s) }
